@@ -225,6 +225,16 @@ func c19NewWorld(rec *ev.Rec) (*c19World, error) {
 		return nil, fmt.Errorf("no layers in fixture image: %v", err)
 	}
 	w.paths.Layer = layers[0].Digest.String()
+	// digest of the v3 image, for call forms that use digest-pinned references
+	r3, err := ref.New("ocidir://" + w.tmpl + ":v3")
+	if err != nil {
+		return nil, err
+	}
+	m3, err := rc.ManifestHead(ctx, r3)
+	if err != nil {
+		return nil, err
+	}
+	w.paths.Dig3 = m3.GetDescriptor().Digest.String()
 	fh, err := os.Create(w.paths.In)
 	if err != nil {
 		return nil, err
